@@ -446,14 +446,35 @@ func otok(v *jv) string {
 var genStrings = []string{"", "a", "ping", "x y", "é", "日本語", " ", "q\"uote", "back\\slash", "nl\nin", "tab\t", "\u0001", "\U0001F600", "null", "0", " lead", "trail ", "résumé/名前",
 	"a/b", "req/1", "</x>&", "\b\f\r", "\u007f", "\u2028\u2029", "\ud7ff\ue000", "\uffff", "\U00010000", "\U0010FFFF", "x\U0001F600/\U0001F601y", "\\u0041", "\\/"}
 
+// strings a wrapper or codec could alter without anyone noticing on lower-case ASCII: upper and mixed case,
+// letters whose case mapping changes their length or is context dependent (İ ı ß ſ Σ ς ǅ), text that looks
+// like an escape or like a number, long strings
+var genStringsCase = []string{"MixedCase", "UPPER", "Title Case", "camelCaseID", "X", "Content-Type", "İstanbul", "ıI", "STRASSE ß ẞ", "ſ",
+	"ΣΊΣΥΦΟΣ ς", "ǅǆǄ", "ÀÉÎÕÜ àéîõü", "Ａ１", "\\u00C9", "%41%c3%A9", "9223372036854775807", "1E400", "-0", "TRUE", "Null", "日本語テキスト ＡＢＣ"}
+
+var genAlphabet = []rune("aAbBcCxXyYzZ019_-./: \"éÉßİıΣσςǅ日本ÿŸ\\")
+
 func genStr(r *rand.Rand) string {
-	if r.Intn(4) == 0 {
+	switch c := r.Intn(20); {
+	case c < 4:
 		n := r.Intn(6)
 		b := make([]byte, n)
 		for i := range b {
 			b[i] = byte('a' + r.Intn(26))
 		}
 		return string(b)
+	case c < 8: // mixed case and non-ASCII letters, any length up to 12
+		n := r.Intn(13)
+		b := make([]rune, n)
+		for i := range b {
+			b[i] = genAlphabet[r.Intn(len(genAlphabet))]
+		}
+		return string(b)
+	case c < 11:
+		return genStringsCase[r.Intn(len(genStringsCase))]
+	case c == 11: // long: 200-1200 bytes of a mixed-case chunk
+		chunk := []string{"Payload-Éß/", "0123456789ABCDEFabcdef", "日本語 Text ", "q\"Q\\"}[r.Intn(4)]
+		return strings.Repeat(chunk, 1+(200+r.Intn(1000))/len(chunk))
 	}
 	return genStrings[r.Intn(len(genStrings))]
 }
@@ -583,8 +604,14 @@ func spellJ(r *rand.Rand, v jv, pct int) jv {
 }
 
 // genNum: integers of all sizes and fractional/exponent forms (for raw pass-through positions).
+// the ends of the int64 range, of float64's exact integers and of float64 itself, and beyond each
+var genNumEdges = []jv{jBig("9223372036854775807"), jBig("-9223372036854775808"), jBig("9223372036854775808"), jBig("-9223372036854775809"),
+	jBig("18446744073709551615"), jBig("18446744073709551616"), jBig("9007199254740991"), jBig("-9007199254740993"),
+	jDec("17976931348623157", 292), jDec("-17976931348623157", 292), jDec("17976931348623159", 292), jDec("1", 400), jDec("5", -324), jDec("4", -324), jDec("1", -400),
+	jDec("22250738585072014", -324), jDec("9007199254740993", -1), jDec("1", 22), jDec("1", 23), jDec("123456789012345678901234567890", -15)}
+
 func genNum(r *rand.Rand) jv {
-	switch r.Intn(8) {
+	switch r.Intn(10) {
 	case 0:
 		return jInt(int64(r.Intn(5)))
 	case 1:
@@ -599,6 +626,8 @@ func genNum(r *rand.Rand) jv {
 		return jDec(fmt.Sprint(1+r.Intn(9)), r.Intn(30))
 	case 6:
 		return jDec("-25", -1)
+	case 7, 8:
+		return genNumEdges[r.Intn(len(genNumEdges))]
 	default:
 		return jInt(-int64(r.Intn(1000)))
 	}
